@@ -5,10 +5,12 @@
 //! `slice::sort` on a copy for sorts, the sorted concatenation for merges, and definitional
 //! (non two-pointer) set-operation references for `set_ops` / `SetOperations`.
 //!
-//! Case families that can kill the process on the unchanged tree are *not generated* (see notes/C11.md):
-//!  * `RadixSort::sort_u32` counting-sort path with keys > 2^24 (allocates `max_key+1` counters = up to 32 GiB),
-//!  * `CacheObliviousSort` funnel recursion reaching width 1 above `small_threshold` (unbounded recursion,
-//!    stack overflow).  `c11 --crash-witness funnel` reproduces the latter outside the explorer.
+//! Two case families used to kill the process (see notes/C11.md); both defects are repaired in zipora (ae3b25e, e193009):
+//!  * `RadixSort::sort_u32` counting-sort path with huge keys (allocated `max_key+1` counters = up to 32 GiB): the
+//!    counting threshold is still only combined with keys <= 2^24, a regression would be too expensive to run;
+//!  * `CacheObliviousSort` funnel recursion reaching width 1 above `small_threshold` (unbounded recursion, stack overflow):
+//!    these cases are explored since the coverage audit (class `funnel-width1-node`); a regression shows up as a worker crash.
+//!    `c11 --crash-witness funnel|funnel-default|counting` runs the former witnesses outside the explorer.
 
 use serde::{de::DeserializeOwned, Deserialize, Serialize};
 use std::cmp::Ordering;
@@ -88,11 +90,18 @@ enum KShape {
     WideSorted,
     /// the reverse of WideSorted
     WideReversed,
+    /// (i+1) * 0x9E3779B97F4A7C15 truncated to the key width: every digit of every key scrambled, (almost) no duplicates
+    Scrambled,
+    /// the same multiplicative hash of i mod 7: seven distinct wide keys, many duplicates, scrambled order
+    ScrambledFew,
+    /// (7919 i) mod 100003: scrambled keys below 2^17 -- too wide for the counting path of any n <= 1000, narrow enough to
+    /// be harmless if a regression took that path anyway (not part of the general grid)
+    ScrambledMid,
 }
 
 const NARROW_SHAPES: &[KShape] = &[KShape::Sorted, KShape::Reversed, KShape::AllEqual, KShape::OrganPipe];
 const ALL_KSHAPES: &[KShape] =
-    &[KShape::Sorted, KShape::Reversed, KShape::AllEqual, KShape::HighByteOnly, KShape::OrganPipe, KShape::WideSorted, KShape::WideReversed];
+    &[KShape::Sorted, KShape::Reversed, KShape::AllEqual, KShape::HighByteOnly, KShape::OrganPipe, KShape::WideSorted, KShape::WideReversed, KShape::Scrambled, KShape::ScrambledFew];
 
 #[derive(Clone, Debug, PartialEq, Eq, Hash, Serialize, Deserialize)]
 enum Keys {
@@ -125,6 +134,9 @@ impl Keys {
                         KShape::OrganPipe => (if i < n / 2 { i } else { n - 1 - i }) as u64,
                         KShape::WideSorted => step * i as u64,
                         KShape::WideReversed => step * (n - 1 - i) as u64,
+                        KShape::Scrambled => trunc((i as u64 + 1).wrapping_mul(0x9E37_79B9_7F4A_7C15), bits),
+                        KShape::ScrambledFew => trunc(((i % 7) as u64 + 1).wrapping_mul(0x9E37_79B9_7F4A_7C15), bits),
+                        KShape::ScrambledMid => (i as u64 * 7919) % 100_003,
                     })
                     .collect()
             }
@@ -179,7 +191,7 @@ fn int_inputs(tier: Tier, bits: u32, cap: u64, max_n: usize, f: &mut dyn FnMut(K
 
 const INT_SPACE: &str = "S = all sequences over {0,1,2} of length <= 7 (quick) / <= 9 (thorough) ∪ all sequences of length <= 3 over \
 {0,1,255,256,65535,65536,2^24,2^31,2^32-1,2^32,2^56,2^63,MAX} truncated to the key type; G = lengths \
-{0,1,2,3,4,5,7,8,9,15,16,17,31,32,33,63,64,65,99,100,101,255,256,257,1000} x {sorted, reversed, all equal, high-byte-only, organ pipe, wide sorted, wide reversed}";
+{0,1,2,3,4,5,7,8,9,15,16,17,31,32,33,63,64,65,99,100,101,255,256,257,1000} x {sorted, reversed, all equal, high-byte-only, organ pipe, wide sorted, wide reversed, scrambled (multiplicative hash of i), scrambled with 7 distinct keys}";
 
 fn brief_vec<T: Debug>(v: &[T]) -> String {
     if v.len() <= 20 {
@@ -254,7 +266,7 @@ fn radix_cfg(c: &RadixCase) -> RadixSortConfig {
     }
 }
 
-fn radix_path(c: &RadixCase, n: usize, with_counting: bool) -> String {
+fn radix_path(c: &RadixCase, n: usize, maxk: u64, with_counting: bool) -> String {
     if n == 0 {
         return "empty".into();
     }
@@ -268,8 +280,13 @@ fn radix_path(c: &RadixCase, n: usize, with_counting: bool) -> String {
     } else {
         "seq"
     };
-    let counting = with_counting && c.count_thr > 0 && (base == "par-merge" || n <= c.count_thr as usize);
-    format!("{}{}/bits{}", base, if counting { "+counting" } else { "" }, c.bits)
+    // sort_u32_sequential: counting sort iff len <= threshold AND max key <= 4 * max(len, 256) (otherwise the LSD passes);
+    // in "par-merge" the same decision is taken per chunk of ceil(n / workers) items ("+counting" = enabled at all)
+    let counting = with_counting
+        && c.count_thr > 0
+        && (base == "par-merge" || (n <= c.count_thr as usize && maxk <= 4 * (n.max(256) as u64)));
+    let refused = with_counting && c.count_thr > 0 && base != "par-merge" && n <= c.count_thr as usize && !counting;
+    format!("{}{}/bits{}", base, if counting { "+counting" } else if refused { "+counting-range-too-wide" } else { "" }, c.bits)
 }
 
 fn radix_gen(wide: bool) -> impl Fn(Tier, &mut dyn FnMut(RadixCase) -> bool) -> bool {
@@ -290,11 +307,54 @@ fn radix_gen(wide: bool) -> impl Fn(Tier, &mut dyn FnMut(RadixCase) -> bool) -> 
                 }
             }
         }
+        // radix widths that divide neither 32 nor 64 and are no multiple of a byte: 3 (22 passes for u64, the last one over a
+        // single bit) and 13 (5 passes for u64, 3 for u32)
+        for bits in [3u8, 13] {
+            for par in [0u32, 4] {
+                let kb = if wide { 64 } else { 32 };
+                if !int_inputs(tier, kb, u64::MAX, 1000, &mut |keys| f(RadixCase { keys, bits, par, count_thr: 0 })) {
+                    return false;
+                }
+            }
+        }
         // three explicit counting-sort cases with a 2^24 key (128 MiB of counters each)
         if !wide {
             for seq in [vec![1u64 << 24], vec![1 << 24, 0], vec![1, 1 << 24, 1 << 24]] {
                 if !f(RadixCase { keys: Keys::Seq(seq), bits: 8, par: 0, count_thr: 256 }) {
                     return false;
+                }
+            }
+            // the counting path is taken only while max key <= 4 * max(len, 256): keys just below / at / above that bound
+            // (1024 for short inputs) and far above it, with the counting threshold below / at / above the length;
+            // and a counting threshold of 1000 so that the long grid inputs take (narrow keys) or refuse (wide keys) it
+            for par in [0u32, 16] {
+                for count_thr in [1u32, 2, 4, 256, 1000] {
+                    for m in [1023u64, 1024, 1025, 4000, 65_537, 1 << 20] {
+                        for seq in [vec![m, 0], vec![3, m, m, 1], vec![m]] {
+                            if !f(RadixCase { keys: Keys::Seq(seq), bits: 8, par, count_thr }) {
+                                return false;
+                            }
+                        }
+                    }
+                }
+                for (shape, n) in [
+                    (KShape::Sorted, 256u32),
+                    (KShape::Sorted, 257),
+                    (KShape::Sorted, 342),
+                    (KShape::Sorted, 343),
+                    (KShape::Sorted, 1000),
+                    (KShape::Reversed, 1000),
+                    (KShape::OrganPipe, 1000),
+                    (KShape::ScrambledMid, 1000),
+                    (KShape::ScrambledMid, 999),
+                    (KShape::ScrambledMid, 1001),
+                    (KShape::ScrambledMid, 300),
+                ] {
+                    for bits in [8u8, 11] {
+                        if !f(RadixCase { keys: Keys::Grid { shape, n }, bits, par, count_thr: 1000 }) {
+                            return false;
+                        }
+                    }
                 }
             }
         }
@@ -311,7 +371,7 @@ fn run_radix_u32(c: &RadixCase) -> Outcome {
     let input: Vec<u32> = keys.iter().map(|&k| k as u32).collect();
     let mut data = input.clone();
     let mut sorter = RadixSort::with_config(radix_cfg(c));
-    let path = radix_path(c, input.len(), true);
+    let path = radix_path(c, input.len(), maxk, true);
     match sorter.sort_u32(&mut data) {
         Err(e) => enumr::fail("sort_err", path, format!("sort_u32 returned Err({e}) on {}", brief_vec(&input))),
         Ok(()) => match judge_sorted(&input, &data) {
@@ -326,7 +386,7 @@ fn run_radix_u64(c: &RadixCase) -> Outcome {
     let input = c.keys.expand(64);
     let mut data = input.clone();
     let mut sorter = RadixSort::with_config(radix_cfg(c));
-    let path = radix_path(c, input.len(), false);
+    let path = radix_path(c, input.len(), 0, false);
     match sorter.sort_u64(&mut data) {
         Err(e) => enumr::fail("sort_err", path, format!("sort_u64 returned Err({e}) on {}", brief_vec(&input))),
         Ok(()) => match judge_sorted(&input, &data) {
@@ -354,10 +414,15 @@ enum SShape {
     PrefixChain,
     /// one byte (37 i + 11) mod 256 followed by 0xFF: differs in the first byte only, includes 0x00 and 0xFF
     FirstByte,
+    /// 70 equal bytes, then the scrambled counter: the MSD recursion passes depth 64 (AdvancedRadixSort switches to
+    /// insertion sort at depth > 64) before the strings differ
+    Prefix70,
+    /// 62 + (i mod 5) equal bytes 'p', then the scrambled counter: groups whose common prefix ends at 62..66 bytes
+    DeepPrefix,
 }
 
 const ALL_SSHAPES: &[SShape] =
-    &[SShape::Sorted, SShape::Reversed, SShape::AllEqual, SShape::LongCommonPrefix, SShape::OrganPipe, SShape::PrefixChain, SShape::FirstByte];
+    &[SShape::Sorted, SShape::Reversed, SShape::AllEqual, SShape::LongCommonPrefix, SShape::OrganPipe, SShape::PrefixChain, SShape::FirstByte, SShape::Prefix70, SShape::DeepPrefix];
 
 #[derive(Clone, Debug, PartialEq, Eq, Hash, Serialize, Deserialize)]
 enum Strs {
@@ -386,6 +451,16 @@ impl Strs {
                         SShape::OrganPipe => num(if i < n / 2 { i } else { n - 1 - i }),
                         SShape::PrefixChain => vec![b'a'; (n - 1 - i).min(40)],
                         SShape::FirstByte => vec![((i * 37 + 11) % 256) as u8, 0xFF],
+                        SShape::Prefix70 => {
+                            let mut s = vec![b'p'; 70];
+                            s.extend_from_slice(&num((i * 37 + 11) % 1000));
+                            s
+                        }
+                        SShape::DeepPrefix => {
+                            let mut s = vec![b'p'; 62 + i % 5];
+                            s.extend_from_slice(&num((i * 37 + 11) % 1000));
+                            s
+                        }
                     })
                     .collect()
             }
@@ -437,7 +512,7 @@ fn str_inputs_dense(tier: Tier, f: &mut dyn FnMut(Strs) -> bool) -> bool {
 const STR_SPACE_DENSE: &str = "as S/G below, plus every list of <= 2 (quick) / <= 3 (thorough) strings from all 40 byte strings of length <= 3 over {00,61,ff}; ";
 
 const STR_SPACE: &str = "S = all lists of <= 4 (quick) / <= 5 (thorough) strings over {\"\", a, ab, b, a\\0, \\xff, a\\0b, \\0}; G = list lengths \
-{0,1,2,3,4,5,8,9,16,17,33,100,101,257} x {sorted, reversed, all equal, common 12-byte prefix, organ pipe, prefix chain, first-byte-only}";
+{0,1,2,3,4,5,8,9,16,17,33,100,101,257} x {sorted, reversed, all equal, common 12-byte prefix, organ pipe, prefix chain, first-byte-only, common 70-byte prefix, common prefixes of 62..66 bytes}";
 
 fn brief_strs(v: &[Vec<u8>]) -> String {
     let show: Vec<String> = v.iter().take(8).map(|s| hex(s)).collect();
@@ -646,6 +721,10 @@ fn adv_cfgs(strat: Strat) -> Vec<AdvCfg> {
             }
             v.push(AdvCfg { par: 4, threads: 3, ..base });
             v.push(AdvCfg { par: 4, secure: true, ..base });
+            // num_threads 1 (one chunk), 7 (chunks of ceil(n/7)), 64 (more threads than items: chunks of one item)
+            v.push(AdvCfg { par: 1, threads: 1, ..base });
+            v.push(AdvCfg { par: 1, threads: 7, ..base });
+            v.push(AdvCfg { par: 4, threads: 64, ..base });
         }
         // same code path as forced LsdRadix: a few configurations only
         Strat::NonAdaptive => {
@@ -808,7 +887,10 @@ fn adv_gen(strat: Strat) -> impl Fn(Tier, &mut dyn FnMut(AdvCase) -> bool) -> bo
             if matches!(strat, Strat::Forced(SortingStrategy::LsdRadix)) && !(cfg.bits == 8 || cfg.bits == 16) {
                 continue;
             }
-            if !str_inputs(tier, &mut |s| f(AdvCase { input: AdvInput::Str(s), cfg })) {
+            // the MSD string sort is a separate copy of the one behind RadixSort::sort_bytes: it gets the same dense family
+            // (two strings that agree up to and including a 0x00 / 0xff byte and differ after it)
+            let strs = if matches!(strat, Strat::Forced(SortingStrategy::MsdRadix)) { str_inputs_dense } else { str_inputs };
+            if !strs(tier, &mut |s| f(AdvCase { input: AdvInput::Str(s), cfg })) {
                 return false;
             }
         }
@@ -837,6 +919,10 @@ enum CoPath {
     DirectFunnel,
     /// CacheObliviousConfig::default() (detected hierarchy)
     Default,
+    /// as Funnel, with `cpu_features.has_avx2 = has_sse42 = false` in the config (the scalar branches of the merge / copy-back)
+    FunnelNoAvx2,
+    /// as L1, with `cpu_features.has_avx2 = has_sse42 = false` (plain insertion sort although use_simd is set)
+    L1NoAvx2,
 }
 
 #[derive(Clone, Debug, Hash, Serialize, Deserialize)]
@@ -849,8 +935,9 @@ struct CoCase {
     simd: bool,
 }
 
-/// Replica of the recursion *shape* of `funnel_sort_recursive` (sizes and widths only): true iff some node has
-/// width 1 and more than `thr` items, where the real code recurses on the same slice forever (stack overflow).
+/// Replica of the recursion *shape* of `funnel_sort_recursive` as it was before the width clamp (sizes and widths only):
+/// true iff some node is handed width 1 together with more than `thr` items -- the nodes that exercise the clamp
+/// `k.max(2).min(n)` (without it the real code recursed on the same slice forever).  Used for outcome classes only.
 fn funnel_overflows(n: usize, k: usize, thr: usize) -> bool {
     if n <= thr {
         return false;
@@ -877,10 +964,10 @@ fn co_config(c: &CoCase, n: usize, item: usize) -> CacheObliviousConfig {
     h.l2_line_size = 64;
     h.l3_line_size = 64;
     let (l1, l2, l3) = match c.path {
-        CoPath::L1 => (big, big, big),
+        CoPath::L1 | CoPath::L1NoAvx2 => (big, big, big),
         CoPath::L2 => (8 * n, big, big),
         CoPath::L3 => (8 * n, 0, big),
-        CoPath::Funnel | CoPath::DirectFunnel => (0, kk, big),
+        CoPath::Funnel | CoPath::DirectFunnel | CoPath::FunnelNoAvx2 => (0, kk, big),
         CoPath::HybridAware => (0, big, 0),
         CoPath::HybridFunnel => (0, 64, 0),
         CoPath::Default => (0, 0, 0),
@@ -896,6 +983,10 @@ fn co_config(c: &CoCase, n: usize, item: usize) -> CacheObliviousConfig {
     }
     cfg.use_simd = c.simd;
     cfg.memory_pool = None;
+    if matches!(c.path, CoPath::FunnelNoAvx2 | CoPath::L1NoAvx2) {
+        cfg.cpu_features.has_avx2 = false;
+        cfg.cpu_features.has_sse42 = false;
+    }
     cfg
 }
 
@@ -919,13 +1010,23 @@ fn run_co_typed<T: Ord + Clone + Debug>(c: &CoCase, input: Vec<T>, keys: &[u64])
         }
     };
     let thr = cfg.small_threshold;
-    if funnel && n > thr {
-        let k0 = funnel_width(h.l2_size, h.l2_line_size, n);
-        if funnel_overflows(n, k0, thr) {
-            return Outcome::skip("left out: funnel recursion reaches width 1 above small_threshold (unbounded recursion, see notes)");
+    // Cases whose recursion reaches a node of width 1 (sqrt of widths 2 and 3) with more than small_threshold items used to
+    // be left out: before zipora commit e193009 such a node recursed on itself forever (stack overflow).  The node now
+    // clamps its width to 2..=n, so these cases are explored like all others and get their own outcome class.
+    let width1 = funnel && n > thr && funnel_overflows(n, funnel_width(h.l2_size, h.l2_line_size, n), thr);
+    let label = format!(
+        "{:?}{}",
+        c.path,
+        if width1 {
+            "/funnel-width1-node"
+        } else if funnel && n > thr {
+            "/funnel"
+        } else if funnel {
+            "/funnel-small"
+        } else {
+            ""
         }
-    }
-    let label = format!("{:?}{}", c.path, if funnel && n > thr { "/funnel" } else if funnel { "/funnel-small" } else { "" });
+    );
     let mut data = input.clone();
     let mut sorter = CacheObliviousSort::with_config(cfg);
     let r = if c.path == CoPath::DirectFunnel { sorter.cache_oblivious_sort(&mut data) } else { sorter.sort(&mut data) };
@@ -963,6 +1064,13 @@ fn co_gen(path: CoPath) -> impl Fn(Tier, &mut dyn FnMut(CoCase) -> bool) -> bool
                     cfgs.push((2, thr, true));
                 }
             }
+            CoPath::FunnelNoAvx2 => {
+                for k in [2u8, 9] {
+                    for thr in [1u32, 16] {
+                        cfgs.push((k, thr, true));
+                    }
+                }
+            }
             CoPath::L1 => {
                 cfgs.push((2, 1024, true));
                 cfgs.push((2, 1024, false));
@@ -981,6 +1089,11 @@ fn co_gen(path: CoPath) -> impl Fn(Tier, &mut dyn FnMut(CoCase) -> bool) -> bool
                             return false;
                         }
                     }
+                }
+                // thorough: the default configuration at a size whose funnel recursion (widths 64 -> 8 -> 2 -> 1) hands a
+                // width-1 node more than the default small_threshold of 1024 items
+                if tier == Tier::Thorough && !f(CoCase { keys: Keys::Grid { shape: KShape::Scrambled, n: 1 << 21 }, path, k, small_thr, simd }) {
+                    return false;
                 }
             }
         }
@@ -1262,12 +1375,21 @@ fn run_loser_tree(c: &MergeCase) -> Outcome {
         }
     }
     let iter_mode = c.cfg & 8 != 0;
+    if tree.num_ways() != c.runs.len() {
+        return enumr::fail("merge_union", "num_ways", format!("num_ways() = {} after adding {} ways", tree.num_ways(), c.runs.len()));
+    }
+    let total: usize = c.runs.iter().map(|r| r.len()).sum();
     let out: Result<Vec<i32>, String> = if iter_mode {
         match tree.initialize() {
             Err(e) => Err(e.to_string()),
             Ok(()) => {
-                let mut v = Vec::new();
+                let mut v: Vec<i32> = Vec::new();
                 loop {
+                    // observer: is_empty() <=> every item has been handed out
+                    let empty = tree.is_empty();
+                    if empty != (v.len() == total) {
+                        return enumr::fail("merge_union", "is_empty", format!("runs {:?}: is_empty() = {empty} after {} of {total} items", c.runs, v.len()));
+                    }
                     let p = tree.peek().copied();
                     let x = tree.next();
                     if p != x {
@@ -1312,7 +1434,18 @@ fn loser_gen(tier: Tier, f: &mut dyn FnMut(MergeCase) -> bool) -> bool {
         }
     }
     // secure memory pool (one pool per tree): up to two ways
-    run_tuples(&runs, 2, &mut |t| f(MergeCase { runs: t, cfg: 7 }))
+    if !run_tuples(&runs, 2, &mut |t| f(MergeCase { runs: t, cfg: 7 })) {
+        return false;
+    }
+    // G: 6..33 ways (round-robin, with empty ways, blocks)
+    for cfg in [3u8, 11, 0] {
+        for runs in wide_merge_runs() {
+            if !f(MergeCase { runs, cfg }) {
+                return false;
+            }
+        }
+    }
+    true
 }
 
 // ------------------------------------------------------------------------------------------------
@@ -1603,9 +1736,12 @@ fn run_setfn(fun: SetFn, c: &PairCase) -> Outcome {
 
 fn setfn_gen(fun: SetFn) -> impl Fn(Tier, &mut dyn FnMut(PairCase) -> bool) -> bool {
     move |tier, f| {
-        let runs = match tier {
-            Tier::Quick => sorted_runs(3, 4),
-            Tier::Thorough => sorted_runs(4, 5),
+        let runs = match (tier, fun) {
+            // one argument only: longer runs of equal values (up to 9 in a row)
+            (Tier::Quick, SetFn::Unique) => sorted_runs(3, 9),
+            (Tier::Thorough, SetFn::Unique) => sorted_runs(4, 9),
+            (Tier::Quick, _) => sorted_runs(3, 4),
+            (Tier::Thorough, _) => sorted_runs(4, 5),
         };
         let thrs: &[u8] = match fun {
             SetFn::InterFast | SetFn::Inter2Fast => &[0, 1, 2, 32],
@@ -1637,6 +1773,29 @@ fn setfn_gen(fun: SetFn) -> impl Fn(Tier, &mut dyn FnMut(PairCase) -> bool) -> b
                 }
             }
         }
+        // G2 (all variants of every two-sequence operation, so that linear / binary-search / adaptive see the same inputs):
+        // short sequences (length <= 3, with repeated keys) whose values lie below the minimum, inside (present and
+        // absent), and above the maximum of a 100-element sequence that has triples / gaps / long runs of equal values;
+        // in both argument orders
+        if fun != SetFn::Unique {
+            let short = sorted_runs(3, 3);
+            let longs: [Vec<u8>; 3] = [
+                (0..100u32).map(|i| (i / 3) as u8).collect(),
+                (0..100u32).map(|i| (2 * i + 1) as u8).collect(),
+                (0..100u32).map(|i| if i < 40 { 1 } else if i < 80 { 5 } else { 250 }).collect(),
+            ];
+            let maps: [[u8; 3]; 3] = [[0, 7, 14], [0, 7, 255], [5, 6, 250]];
+            for long in &longs {
+                for map in &maps {
+                    for a in &short {
+                        let a2: Vec<u8> = a.iter().map(|&x| map[x as usize]).collect();
+                        if !f(PairCase { a: a2.clone(), b: long.clone(), thr: 32 }) || !f(PairCase { a: long.clone(), b: a2, thr: 32 }) {
+                            return false;
+                        }
+                    }
+                }
+            }
+        }
         true
     }
 }
@@ -1660,9 +1819,16 @@ fn run_kop(op: KOp, c: &MergeCase) -> Outcome {
     let cfg = match (op, c.cfg) {
         (KOp::Inter, 1) => SetOperationsConfig { use_bit_mask_optimization: false, ..SetOperationsConfig::default() },
         (KOp::Inter, 2) => SetOperationsConfig { bit_mask_threshold: 1, ..SetOperationsConfig::default() },
+        (KOp::Inter, 3) => SetOperationsConfig { bit_mask_threshold: 64, ..SetOperationsConfig::default() },
         _ => SetOperationsConfig::default(),
     };
-    let general = op == KOp::Inter && (c.cfg == 1 || (c.cfg == 2 && runs.len() > 1));
+    let general = op == KOp::Inter
+        && match c.cfg {
+            1 => true,
+            2 => runs.len() > 1,
+            3 => runs.len() > 64,
+            _ => runs.len() > 32,
+        };
     let variant = if op != KOp::Inter {
         ""
     } else if general {
@@ -1673,7 +1839,7 @@ fn run_kop(op: KOp, c: &MergeCase) -> Outcome {
     let mut so = SetOperations::with_config(cfg);
     let has_dup = runs.iter().any(|r| r.windows(2).any(|w| w[0] == w[1]));
     let dupc = if has_dup { "dup_inputs" } else { "unique_inputs" };
-    let cls = format!("{}/{dupc}{variant}", merge_class(runs));
+    let cls = format!("{}/{dupc}{variant}", if runs.len() > 9 { format!("ways{}", runs.len()) } else { merge_class(runs) });
     let all: Vec<u8> = {
         let mut v: Vec<u8> = runs.iter().flatten().copied().collect();
         v.sort();
@@ -1688,9 +1854,17 @@ fn run_kop(op: KOp, c: &MergeCase) -> Outcome {
     };
     match op {
         KOp::Inter => {
-            let got = match so.intersection(its()) {
-                Ok(v) => v,
-                Err(e) => return refused(e.to_string()),
+            // a panic is caught here so that its class can name the variant and the number of ways
+            let got = match zverif::util::catch(|| so.intersection(its())) {
+                Ok(Ok(v)) => v,
+                Ok(Err(e)) => return refused(e.to_string()),
+                Err(p) => {
+                    return enumr::fail(
+                        "set_op_result",
+                        if runs.len() > 32 && !general { "bit-mask-path-with-more-than-32-ways".to_string() } else { format!("panic/{dupc}{variant}") },
+                        format!("intersection of {} ways panicked ({}): bit_mask_threshold {}", runs.len(), p.detail, if c.cfg == 3 { 64 } else { 32 }),
+                    )
+                }
             };
             // k-way two-pointer definition: value v appears min_i count_i(v) times
             let mut exp = Vec::new();
@@ -1707,6 +1881,10 @@ fn run_kop(op: KOp, c: &MergeCase) -> Outcome {
             }
             // "wrong_values": wrong under any reading of the multiplicity (the set of distinct values differs)
             let sym = if dedup(got.clone()) != dedup(exp.clone()) || got.windows(2).any(|w| w[0] > w[1]) { "wrong_values" } else { "multiplicity_only" };
+            if runs.len() > 32 && !general {
+                // a 32-bit mask cannot tell more than 32 ways apart: one situation, whether it panics or answers wrongly
+                return enumr::fail("set_op_result", "bit-mask-path-with-more-than-32-ways", format!("intersection of {} ways (bit_mask_threshold 64) -> got {:?}, expected {:?}; ways: {:?}", runs.len(), got, exp, runs));
+            }
             enumr::fail("set_op_result", format!("{sym}/{dupc}{variant}"), format!("intersection of {:?} -> got {:?}, expected {:?}", runs, got, exp))
         }
         KOp::Union => match so.union(its()) {
@@ -1760,7 +1938,737 @@ fn run_kop(op: KOp, c: &MergeCase) -> Outcome {
 }
 
 
-/// Reproduce, outside the explorer, the case families that are left out because they kill the process:
+// ------------------------------------------------------------------------------------------------
+// coverage audit (au6): many ways, tagged elements, custom comparators, reused objects, Algorithm::execute
+
+/// k-way inputs around the default bit-mask limit of 32 ways (31, 32, 33; thorough: + 64, 65): every way [0,1,2]; one way
+/// (first / last / way 31) lacking the 1; every way [0,1,1,2] except one with a single 1; one empty way among [1]s;
+/// way i = [i mod 3]
+fn many_ways_runs(tier: Tier) -> Vec<Vec<Vec<u8>>> {
+    let mut out = Vec::new();
+    let ks: &[usize] = tier.pick(&[31, 32, 33][..], &[31, 32, 33, 64, 65][..]);
+    for &k in ks {
+        out.push(vec![vec![0u8, 1, 2]; k]);
+        let mut special = vec![0usize, k - 1];
+        if k > 32 {
+            special.push(31);
+            special.push(32);
+        }
+        for &m in &special {
+            let mut r = vec![vec![0u8, 1, 2]; k];
+            r[m] = vec![0, 2];
+            out.push(r);
+            let mut r = vec![vec![0u8, 1, 1, 2]; k];
+            r[m] = vec![0, 1, 2];
+            out.push(r);
+            let mut r = vec![vec![1u8]; k];
+            r[m] = vec![];
+            out.push(r);
+        }
+        out.push((0..k).map(|i| vec![(i % 3) as u8]).collect());
+    }
+    out
+}
+
+fn many_ways_gen(cfgs: &'static [u8]) -> impl Fn(Tier, &mut dyn FnMut(MergeCase) -> bool) -> bool {
+    move |tier, f| {
+        for &cfg in cfgs {
+            for runs in many_ways_runs(tier) {
+                if !f(MergeCase { runs, cfg }) {
+                    return false;
+                }
+            }
+        }
+        true
+    }
+}
+
+/// loser tree / binary merge tree with more ways than the exhaustive tuples reach: k in {6,7,8,9,16,17,33} ways fed
+/// round-robin from the sorted sequence (i / 3) for i < n, n in {k-1, 2k+1, 5k}; variant with every 4th way empty;
+/// and "blocks" (way j entirely below way j+1) in ascending and descending way order
+fn wide_merge_runs() -> Vec<Vec<Vec<u8>>> {
+    let mut out = Vec::new();
+    for k in [6usize, 7, 8, 9, 16, 17, 33] {
+        for n in [k - 1, 2 * k + 1, 5 * k] {
+            for holes in [false, true] {
+                let mut runs = vec![Vec::new(); k];
+                let live: Vec<usize> = (0..k).filter(|w| !(holes && w % 4 == 1)).collect();
+                for i in 0..n {
+                    runs[live[i % live.len()]].push((i / 3) as u8);
+                }
+                out.push(runs);
+            }
+        }
+        let blocks: Vec<Vec<u8>> = (0..k).map(|w| (0..5).map(|j| (w * 5 + j) as u8).collect()).collect();
+        out.push(blocks.clone());
+        out.push(blocks.into_iter().rev().collect());
+    }
+    out
+}
+
+/// SimdOperations::merge_multiple_sorted with arrays long enough for the AVX2 bulk copy (>= 8 remaining items) inside the
+/// binary merge tree: k in {2,3,5,8,9} arrays of 8, 9 and 17 items, interleaved and in blocks
+fn long_multi_runs() -> Vec<Vec<Vec<u8>>> {
+    let mut out = Vec::new();
+    for k in [2usize, 3, 5, 8, 9] {
+        for len in [8usize, 9, 17] {
+            let inter: Vec<Vec<u8>> = (0..k).map(|w| (0..len).map(|j| ((j * k + w) / 2) as u8).collect()).collect();
+            out.push(inter);
+            let blocks: Vec<Vec<u8>> = (0..k).map(|w| (0..len).map(|j| (w * len + j) as u8).collect()).collect();
+            out.push(blocks.clone());
+            out.push(blocks.into_iter().rev().collect());
+            // unequal lengths: way w has len + w items
+            out.push((0..k).map(|w| (0..len + w).map(|j| (j * 3 + w) as u8).collect()).collect());
+        }
+    }
+    out
+}
+
+fn explicit_runs_gen(make: fn() -> Vec<Vec<Vec<u8>>>, cfgs: &'static [u8]) -> impl Fn(Tier, &mut dyn FnMut(MergeCase) -> bool) -> bool {
+    move |_tier, f| {
+        for &cfg in cfgs {
+            for runs in make() {
+                if !f(MergeCase { runs, cfg }) {
+                    return false;
+                }
+            }
+        }
+        true
+    }
+}
+
+/// EnhancedLoserTree::with_comparator(reverse order) on descending runs (the runs of the case, reversed), driven
+/// through merge_to_vec (cfg bit 3 clear) or initialize()+peek()/next() with the observers num_ways()/is_empty()
+fn run_loser_tree_cmp(c: &MergeCase) -> Outcome {
+    let cfg = LoserTreeConfig {
+        stable_sort: c.cfg & 1 != 0,
+        cache_optimized: c.cfg & 2 != 0,
+        use_secure_memory: false,
+        initial_capacity: 2,
+        ..LoserTreeConfig::default()
+    };
+    let mut tree = EnhancedLoserTree::with_comparator(cfg, |a: &i32, b: &i32| b.cmp(a));
+    for r in &c.runs {
+        let v: Vec<i32> = r.iter().rev().map(|&x| x as i32).collect();
+        if let Err(e) = tree.add_way(v.into_iter()) {
+            return enumr::fail("merge_err", "add_way", format!("add_way Err({e})"));
+        }
+    }
+    if tree.num_ways() != c.runs.len() {
+        return enumr::fail("merge_union", "num_ways", format!("num_ways() = {} after adding {} ways", tree.num_ways(), c.runs.len()));
+    }
+    let total: usize = c.runs.iter().map(|r| r.len()).sum();
+    let iter_mode = c.cfg & 8 != 0;
+    let out: Result<Vec<i32>, String> = if iter_mode {
+        match tree.initialize() {
+            Err(e) => Err(e.to_string()),
+            Ok(()) => {
+                let mut v: Vec<i32> = Vec::new();
+                loop {
+                    let empty = tree.is_empty();
+                    if empty != (v.len() == total) {
+                        return enumr::fail("merge_union", "is_empty", format!("runs {:?} (reversed): is_empty() = {empty} after {} of {total} items", c.runs, v.len()));
+                    }
+                    let p = tree.peek().copied();
+                    let x = tree.next();
+                    if p != x {
+                        return enumr::fail("merge_union", "peek_ne_pop", format!("runs {:?} (reversed): peek() = {:?} but pop() = {:?} after {:?}", c.runs, p, x, v));
+                    }
+                    match x {
+                        Some(x) => v.push(x),
+                        None => break,
+                    }
+                }
+                Ok(v)
+            }
+        }
+    } else {
+        tree.merge_to_vec().map_err(|e| e.to_string())
+    };
+    match out {
+        Err(e) => {
+            if c.runs.is_empty() {
+                Outcome::skip("zero ways refused (explicit Err)")
+            } else {
+                enumr::fail("merge_err", merge_class(&c.runs), format!("merge returned Err({e}) on {:?} (reversed)", c.runs))
+            }
+        }
+        Ok(mut v) => {
+            // judge in ascending terms: the descending merge, reversed, must be the ascending sorted union
+            let desc = v.windows(2).all(|w| w[0] >= w[1]);
+            v.reverse();
+            if !desc {
+                v.push(i32::MIN); // make the comparison below fail with a visible marker
+            }
+            judge_merge(&c.runs, &v, if iter_mode { "/reverse-cmp/iter" } else { "/reverse-cmp/merge_to_vec" })
+        }
+    }
+}
+
+fn loser_cmp_gen(tier: Tier, f: &mut dyn FnMut(MergeCase) -> bool) -> bool {
+    let runs = sorted_runs(3, 3);
+    for cfg in [3u8, 11, 0] {
+        if !run_tuples(&runs, tier.pick(3, 4), &mut |t| f(MergeCase { runs: t, cfg })) {
+            return false;
+        }
+    }
+    for cfg in [3u8, 11] {
+        for runs in wide_merge_runs() {
+            if !f(MergeCase { runs, cfg }) {
+                return false;
+            }
+        }
+    }
+    true
+}
+
+// ---- set_ops on tagged elements: which sequence an output element was copied from is observable
+
+#[derive(Clone, Copy, Debug, PartialEq, Eq, PartialOrd, Ord)]
+struct Tagged {
+    key: u8,
+    /// 0 = first sequence, 1 = second sequence
+    side: u8,
+    idx: u8,
+}
+
+const TAGGED_SETFNS: &[(SetFn, &str)] = &[
+    (SetFn::Inter, "multiset_intersection"),
+    (SetFn::Inter1Small, "multiset_1small_intersection"),
+    (SetFn::InterFast, "multiset_fast_intersection"),
+    (SetFn::Inter2, "multiset_intersection2"),
+    (SetFn::Inter2_1Small, "multiset_1small_intersection2"),
+    (SetFn::Inter2Fast, "multiset_fast_intersection2"),
+    (SetFn::Union, "multiset_union"),
+    (SetFn::Difference, "multiset_difference"),
+];
+
+/// The comparator sees the key only.  Oracle (documented semantics, as for the untagged subjects):
+///  * the keys of the output are the reference result;
+///  * no input element is emitted twice;
+///  * intersection: exactly the elements of the FIRST sequence whose key occurs in the second ("copied from first");
+///    intersection2: exactly the elements of the SECOND sequence whose key occurs in the first;
+///    union: exactly all elements of both; difference: elements of the first sequence only.
+fn run_setfn_tagged(fun: SetFn, c: &PairCase) -> Outcome {
+    let ta: Vec<Tagged> = c.a.iter().enumerate().map(|(i, &k)| Tagged { key: k, side: 0, idx: i as u8 }).collect();
+    let tb: Vec<Tagged> = c.b.iter().enumerate().map(|(i, &k)| Tagged { key: k, side: 1, idx: i as u8 }).collect();
+    let cmp = |x: &Tagged, y: &Tagged| x.key.cmp(&y.key);
+    let (a, b) = (&ta[..], &tb[..]);
+    let got: Vec<Tagged> = match fun {
+        SetFn::Inter => set_ops::multiset_intersection(a, b, cmp),
+        SetFn::Inter1Small => set_ops::multiset_1small_intersection(a, b, cmp),
+        SetFn::InterFast => set_ops::multiset_fast_intersection(a, b, cmp, c.thr as usize),
+        SetFn::Inter2 => set_ops::multiset_intersection2(a, b, cmp),
+        SetFn::Inter2_1Small => set_ops::multiset_1small_intersection2(a, b, cmp),
+        SetFn::Inter2Fast => set_ops::multiset_fast_intersection2(a, b, cmp, c.thr as usize),
+        SetFn::Union => set_ops::multiset_union(a, b, cmp),
+        SetFn::Difference => set_ops::multiset_difference(a, b, cmp),
+        _ => return Outcome::skip("not a tagged subject"),
+    };
+    let has_dup = |v: &[u8]| v.windows(2).any(|w| w[0] == w[1]);
+    let dupc = if has_dup(&c.a) || has_dup(&c.b) { "dup_inputs" } else { "unique_inputs" };
+    let show = |v: &[Tagged]| v.iter().map(|t| format!("{}{}{}", t.key, if t.side == 0 { 'a' } else { 'b' }, t.idx)).collect::<Vec<_>>().join(",");
+    let detail = |why: &str, exp: &str| {
+        format!("{why}: a={:?} b={:?} thr={} (comparator sees keys only; <key><sequence><index>) -> got [{}]{}", c.a, c.b, c.thr, show(&got), exp)
+    };
+    let keys: Vec<u8> = got.iter().map(|t| t.key).collect();
+    let exp_keys = set_reference(fun, &c.a, &c.b);
+    if keys != exp_keys {
+        return enumr::fail("set_op_result", format!("tagged/wrong_keys/{dupc}"), detail("keys differ from the reference", &format!(", expected keys {:?}", exp_keys)));
+    }
+    let mut sorted = got.clone();
+    sorted.sort();
+    if sorted.windows(2).any(|w| w[0] == w[1]) {
+        return enumr::fail("set_op_result", format!("tagged/element_emitted_twice/{dupc}"), detail("one input element appears twice in the output", ""));
+    }
+    let exp: Option<Vec<Tagged>> = match fun {
+        SetFn::Inter | SetFn::Inter1Small | SetFn::InterFast => Some(ta.iter().copied().filter(|x| c.b.contains(&x.key)).collect()),
+        SetFn::Inter2 | SetFn::Inter2_1Small | SetFn::Inter2Fast => Some(tb.iter().copied().filter(|y| c.a.contains(&y.key)).collect()),
+        SetFn::Union => {
+            let mut v = ta.clone();
+            v.extend_from_slice(&tb);
+            Some(v)
+        }
+        _ => None,
+    };
+    match exp {
+        Some(mut e) => {
+            e.sort();
+            if sorted != e {
+                return enumr::fail("set_op_result", format!("tagged/copied_from_wrong_sequence/{dupc}"), detail("the output is not the documented selection of input elements", &format!(", expected (as a multiset) [{}]", show(&e))));
+            }
+        }
+        None => {
+            if got.iter().any(|t| t.side != 0) {
+                return enumr::fail("set_op_result", format!("tagged/copied_from_wrong_sequence/{dupc}"), detail("difference must consist of elements of the first sequence", ""));
+            }
+        }
+    }
+    let cls = format!("tagged/{dupc}");
+    if c.a.is_empty() && c.b.is_empty() {
+        Outcome::trivial(&cls)
+    } else {
+        Outcome::pass(&cls)
+    }
+}
+
+// ---- ReplaceSelectSort: reused object, cleanup_temp_files off, custom comparator, variable-size items
+
+#[derive(Clone, Debug, Hash, Serialize, Deserialize)]
+struct ExtSeqCase {
+    /// the inputs given one after the other to ONE sorter object
+    inputs: Vec<Keys>,
+    /// memory_buffer_size = mem_items * size_of::<item type>()
+    mem_items: u8,
+    cleanup: bool,
+    /// 0 = ReplaceSelectSort::new (Ord), 1 = with_comparator(ascending), 2 = with_comparator(descending)
+    cmp: u8,
+    /// 0 = u64 items, 1 = String items ("" for 0, otherwise the decimal digits of the key repeated (key mod 3 + 1) times:
+    /// variable-size records in the run files)
+    item: u8,
+}
+
+fn ext_string_item(k: u64) -> String {
+    if k == 0 {
+        String::new()
+    } else {
+        k.to_string().repeat((k % 3 + 1) as usize)
+    }
+}
+
+fn run_ext_seq_typed<T>(c: &ExtSeqCase, inputs: Vec<Vec<T>>) -> Outcome
+where
+    T: Ord + Clone + Debug + serde::Serialize + DeserializeOwned + 'static,
+{
+    let dir = ext_tmp_dir().join("seq");
+    if std::fs::create_dir_all(&dir).is_err() {
+        return Outcome::skip("cannot create temp dir");
+    }
+    let sz = std::mem::size_of::<T>();
+    let cfg = ReplaceSelectSortConfig {
+        memory_buffer_size: c.mem_items as usize * sz,
+        temp_dir: dir.clone(),
+        use_secure_memory: false,
+        compress_temp_files: false,
+        merge_ways: 16,
+        cleanup_temp_files: c.cleanup,
+    };
+    let cmp_label = ["ord", "cmp-asc", "cmp-desc"][c.cmp as usize % 3];
+    // one sorter object for all inputs; the comparator variants have different types, hence the closure
+    let results: Vec<Result<Vec<T>, String>> = match c.cmp {
+        0 => {
+            let mut s = ReplaceSelectSort::<T>::new(cfg);
+            inputs.iter().map(|i| s.sort(i.clone()).map_err(|e| e.to_string())).collect()
+        }
+        1 => {
+            let mut s = ReplaceSelectSort::<T, _>::with_comparator(cfg, |a: &T, b: &T| a.cmp(b));
+            inputs.iter().map(|i| s.sort(i.clone()).map_err(|e| e.to_string())).collect()
+        }
+        _ => {
+            let mut s = ReplaceSelectSort::<T, _>::with_comparator(cfg, |a: &T, b: &T| b.cmp(a));
+            inputs.iter().map(|i| s.sort(i.clone()).map_err(|e| e.to_string())).collect()
+        }
+    };
+    let _ = std::fs::remove_dir_all(&dir);
+    let mut spilled = false;
+    for (round, (input, res)) in inputs.iter().zip(results.iter()).enumerate() {
+        // one class per situation: the first sort of an object depends on the comparator variant only (cleanup_temp_files
+        // acts after it); a later sort additionally on what the earlier ones left behind
+        let label = if round == 0 { format!("{cmp_label}/first-sort") } else { format!("later-sort/cleanup-{}", if c.cleanup { "on" } else { "off" }) };
+        let out = match res {
+            Err(e) => return enumr::fail("sort_err", label, format!("sort #{round} of one sorter object returned Err({e}) on {}", brief_vec(input))),
+            Ok(o) => o,
+        };
+        let mut exp = input.clone();
+        exp.sort();
+        if c.cmp == 2 {
+            exp.reverse();
+        }
+        if out != &exp {
+            let mut o = out.clone();
+            o.sort();
+            let mut e2 = exp.clone();
+            e2.sort();
+            let sym = if o.len() != e2.len() {
+                "len_changed"
+            } else if o != e2 {
+                "not_permutation"
+            } else {
+                "not_sorted"
+            };
+            return enumr::fail(
+                "sorted_permutation",
+                format!("{sym}/{label}"),
+                format!("inputs to one sorter: {:?}; sort #{round} -> got {}, expected {}", inputs.iter().map(|i| brief_vec(i)).collect::<Vec<_>>(), brief_vec(out), brief_vec(&exp)),
+            );
+        }
+        spilled |= input.len() > c.mem_items as usize;
+    }
+    let cls = format!("{cmp_label}/sorts{}/cleanup-{}/{}", inputs.len(), if c.cleanup { "on" } else { "off" }, if spilled { "spilled" } else { "in-memory" });
+    if inputs.iter().all(|i| i.len() < 2) {
+        Outcome::trivial(&cls)
+    } else {
+        Outcome::pass(&cls)
+    }
+}
+
+fn run_ext_seq(c: &ExtSeqCase) -> Outcome {
+    if c.item == 0 {
+        run_ext_seq_typed::<u64>(c, c.inputs.iter().map(|k| k.expand(64)).collect())
+    } else {
+        run_ext_seq_typed::<String>(c, c.inputs.iter().map(|k| k.expand(64).into_iter().map(ext_string_item).collect()).collect())
+    }
+}
+
+fn ext_seq_gen(tier: Tier, f: &mut dyn FnMut(ExtSeqCase) -> bool) -> bool {
+    // (a) one sort, every comparator variant, u64 and String items: S u G of the integer sorts (n <= 257)
+    for item in [0u8, 1] {
+        for cmp in [1u8, 2, 0] {
+            if item == 0 && cmp == 0 {
+                continue; // ReplaceSelectSort::new with u64 items is the subject "ReplaceSelectSort"
+            }
+            for mem_items in [1u8, 3] {
+                if !int_inputs(tier, 64, u64::MAX, 257, &mut |keys| {
+                    // quick: sequences up to length 5 only (the grid part is kept)
+                    if tier == Tier::Quick && matches!(&keys, Keys::Seq(v) if v.len() > 5) {
+                        return true;
+                    }
+                    f(ExtSeqCase { inputs: vec![keys], mem_items, cleanup: true, cmp, item })
+                }) {
+                    return false;
+                }
+            }
+        }
+    }
+    // (b) ONE sorter object sorting two / three inputs: all pairs of sequences of length <= 3 over {0,1,2}
+    //     x memory {1,2} items x cleanup_temp_files on/off x {Ord, ascending comparator}; triples of length <= 2 (thorough: <= 3 items)
+    let mut small: Vec<Vec<u64>> = Vec::new();
+    all_strings(&[0u64, 1, 2], 3, &mut |s| {
+        small.push(s.to_vec());
+        true
+    });
+    for cleanup in [true, false] {
+        // the ascending comparator takes the with_comparator code path without changing the order, so that a failure of a
+        // later sort is about reuse and not about the comparator
+        for cmp in [0u8, 1] {
+            for mem_items in [1u8, 2] {
+                for a in &small {
+                    for b in &small {
+                        if !f(ExtSeqCase { inputs: vec![Keys::Seq(a.clone()), Keys::Seq(b.clone())], mem_items, cleanup, cmp, item: 0 }) {
+                            return false;
+                        }
+                    }
+                }
+            }
+        }
+    }
+    let tiny: Vec<&Vec<u64>> = small.iter().filter(|s| s.len() <= tier.pick(2, 3)).collect();
+    for cleanup in [true, false] {
+        for a in &tiny {
+            for b in &tiny {
+                for c3 in &tiny {
+                    let inputs = vec![Keys::Seq((*a).clone()), Keys::Seq((*b).clone()), Keys::Seq((*c3).clone())];
+                    if !f(ExtSeqCase { inputs, mem_items: 1, cleanup, cmp: 0, item: 0 }) {
+                        return false;
+                    }
+                }
+            }
+        }
+    }
+    // (c) a long input after a short one and vice versa, String items
+    for (n1, n2) in [(100u32, 3u32), (3, 100), (257, 16)] {
+        for cleanup in [true, false] {
+            let inputs = vec![Keys::Grid { shape: KShape::Scrambled, n: n1 }, Keys::Grid { shape: KShape::Reversed, n: n2 }];
+            for item in [0u8, 1] {
+                if !f(ExtSeqCase { inputs: inputs.clone(), mem_items: 3, cleanup, cmp: 0, item }) {
+                    return false;
+                }
+            }
+        }
+    }
+    true
+}
+
+// ---- in-memory sorters and mergers: one object used for several inputs; the Algorithm::execute entry points
+
+#[derive(Clone, Debug, Hash, Serialize, Deserialize)]
+struct ReuseCase {
+    /// which object / entry point (see `REUSE_KINDS`)
+    kind: u8,
+    /// inputs given one after the other to the same object
+    inputs: Vec<Keys>,
+}
+
+const REUSE_KINDS: &[&str] = &[
+    "RadixSort: sort_u32, sort_u64, sort_bytes, sort_u32 with one object (parallel threshold 8)",
+    "KeyValueRadixSort<u64,u32>: one object",
+    "AdvancedRadixSort<u64>[auto, insertion threshold 4, parallel 8]: one object",
+    "AdvancedRadixSort<RadixString>[MsdRadix, insertion threshold 2]: one object",
+    "AdvancedRadixSort<u32>::with_memory_pool (shared SecureMemoryPool), LsdRadix: one object",
+    "CacheObliviousSort[funnel k=2, small_threshold 2]: one object",
+    "MultiWayMerge[tournament]: one object merging the input split round-robin into 9 runs, then 2 runs",
+    "SetOperations: intersection, union, intersection with one object (input i = way set {x, x+1, x+2})",
+    "Algorithm::execute of RadixSort (Vec<u32>)",
+    "Algorithm::execute of CacheObliviousSort (Vec<i32>, keys mapped to signed values)",
+    "Algorithm::execute of MultiWayMerge (Vec<Vec<i32>>, input split round-robin into 3 runs)",
+    "Algorithm::execute of AdvancedRadixSort<u64>",
+    "<Vec<u64> as ExternalSort>::external_sort() (default configuration)",
+];
+
+fn reuse_inputs() -> Vec<Keys> {
+    let mut v = vec![
+        Keys::Seq(vec![]),
+        Keys::Seq(vec![5]),
+        Keys::Seq(vec![2, 0, 1]),
+        Keys::Seq(vec![1 << 40, 3, 1 << 33, 3]),
+    ];
+    for (shape, n) in [
+        (KShape::Reversed, 17u32),
+        (KShape::Scrambled, 33),
+        (KShape::ScrambledFew, 100),
+        (KShape::OrganPipe, 300),
+        (KShape::WideReversed, 300),
+        (KShape::Scrambled, 1000),
+    ] {
+        v.push(Keys::Grid { shape, n });
+    }
+    v
+}
+
+fn reuse_gen(_tier: Tier, f: &mut dyn FnMut(ReuseCase) -> bool) -> bool {
+    let ins = reuse_inputs();
+    for kind in 0..REUSE_KINDS.len() as u8 {
+        let execute = kind >= 8;
+        for a in &ins {
+            if execute {
+                if !f(ReuseCase { kind, inputs: vec![a.clone()] }) {
+                    return false;
+                }
+                continue;
+            }
+            for b in &ins {
+                if !f(ReuseCase { kind, inputs: vec![a.clone(), b.clone()] }) {
+                    return false;
+                }
+            }
+        }
+        if !execute {
+            // three in a row: long, short, long
+            let three = vec![ins[9].clone(), ins[2].clone(), ins[7].clone()];
+            if !f(ReuseCase { kind, inputs: three }) {
+                return false;
+            }
+        }
+    }
+    true
+}
+
+fn round_robin(v: &[u64], k: usize) -> Vec<Vec<i32>> {
+    let mut s: Vec<u64> = v.to_vec();
+    s.sort();
+    let mut runs = vec![Vec::new(); k];
+    for (i, x) in s.iter().enumerate() {
+        runs[i % k].push((*x % 1_000_000) as i32);
+    }
+    for r in runs.iter_mut() {
+        r.sort();
+    }
+    runs
+}
+
+fn run_reuse(c: &ReuseCase) -> Outcome {
+    use zipora::algorithms::Algorithm;
+    let kind = c.kind as usize;
+    let label = format!("kind{kind}/inputs{}", c.inputs.len());
+    let fail = |round: usize, what: &str, detail: String| enumr::fail("sorted_permutation", format!("kind{kind}/{}/{what}", if round == 0 { "first-use" } else { "later-use" }), detail);
+    macro_rules! check_sorted {
+        ($round:expr, $input:expr, $out:expr) => {
+            if let Some((sym, d)) = judge_sorted(&$input, &$out) {
+                return fail($round, sym, format!("{}: use #{} of one object: {d}", REUSE_KINDS[kind], $round));
+            }
+        };
+    }
+    macro_rules! check_ok {
+        ($round:expr, $r:expr) => {
+            match $r {
+                Ok(v) => v,
+                Err(e) => return enumr::fail("sort_err", format!("kind{kind}"), format!("{}: use #{} returned Err({e})", REUSE_KINDS[kind], $round)),
+            }
+        };
+    }
+    let ins: Vec<Vec<u64>> = c.inputs.iter().map(|k| k.expand(64)).collect();
+    match kind {
+        0 => {
+            let mut s = RadixSort::with_config(RadixSortConfig { use_parallel: true, parallel_threshold: 8, radix_bits: 8, use_counting_sort_threshold: 16, use_simd: true });
+            for (round, inp) in ins.iter().enumerate() {
+                let i32v: Vec<u32> = inp.iter().map(|&x| x as u32).collect();
+                let mut d = i32v.clone();
+                check_ok!(round, s.sort_u32(&mut d));
+                check_sorted!(round, i32v, d);
+                let mut d = inp.clone();
+                check_ok!(round, s.sort_u64(&mut d));
+                check_sorted!(round, inp, d);
+                let bytes: Vec<Vec<u8>> = inp.iter().map(|x| x.to_be_bytes()[(x % 8) as usize..].to_vec()).collect();
+                let mut d = bytes.clone();
+                check_ok!(round, s.sort_bytes(&mut d));
+                check_sorted!(round, bytes, d);
+                let mut d = i32v.clone();
+                d.reverse();
+                let rev = d.clone();
+                check_ok!(round, s.sort_u32(&mut d));
+                check_sorted!(round, rev, d);
+            }
+        }
+        1 => {
+            let s = KeyValueRadixSort::<u64, u32>::new();
+            for (round, inp) in ins.iter().enumerate() {
+                let pairs: Vec<(u64, u32)> = inp.iter().enumerate().map(|(i, &k)| (k, i as u32)).collect();
+                let mut d = pairs.clone();
+                check_ok!(round, s.sort_by_key(&mut d));
+                let by_key = d.windows(2).all(|w| w[0].0 <= w[1].0);
+                let mut a = d.clone();
+                a.sort();
+                let mut b = pairs.clone();
+                b.sort();
+                if !by_key || a != b {
+                    return fail(round, "kv", format!("{}: use #{round}: input {} -> got {}", REUSE_KINDS[kind], brief_vec(&pairs), brief_vec(&d)));
+                }
+            }
+        }
+        2 | 11 => {
+            let cfg = AdvancedRadixSortConfig {
+                use_secure_memory: false,
+                use_parallel: true,
+                parallel_threshold: 8,
+                insertion_sort_threshold: 4,
+                ..AdvancedRadixSortConfig::default()
+            };
+            let mut s = check_ok!(0, AdvancedRadixSort::<u64>::with_config(cfg.clone()));
+            for (round, inp) in ins.iter().enumerate() {
+                if kind == 11 {
+                    let out = check_ok!(round, s.execute(&cfg, inp.clone()));
+                    check_sorted!(round, inp, out);
+                } else {
+                    let mut d = inp.clone();
+                    check_ok!(round, s.sort(&mut d));
+                    check_sorted!(round, inp, d);
+                }
+            }
+        }
+        3 => {
+            let cfg = AdvancedRadixSortConfig {
+                use_secure_memory: false,
+                force_strategy: Some(SortingStrategy::MsdRadix),
+                insertion_sort_threshold: 2,
+                ..AdvancedRadixSortConfig::default()
+            };
+            let owned: Vec<Vec<Vec<u8>>> = ins.iter().map(|inp| inp.iter().map(|x| x.to_be_bytes()[(x % 8) as usize..].to_vec()).collect()).collect();
+            let mut s = check_ok!(0, AdvancedRadixSort::<RadixString>::with_config(cfg));
+            for (round, strs) in owned.iter().enumerate() {
+                let input: Vec<RadixString> = strs.iter().map(|b| RadixString::new(b)).collect();
+                let mut d = input.clone();
+                check_ok!(round, s.sort(&mut d));
+                let got: Vec<Vec<u8>> = d.iter().map(|r| r.as_slice().to_vec()).collect();
+                check_sorted!(round, strs, got);
+            }
+        }
+        4 => {
+            let pool = match zipora::memory::SecureMemoryPool::new(zipora::memory::SecurePoolConfig::small_secure()) {
+                Ok(p) => p,
+                Err(_) => return Outcome::skip("cannot create SecureMemoryPool"),
+            };
+            let cfg = AdvancedRadixSortConfig { force_strategy: Some(SortingStrategy::LsdRadix), use_parallel: false, ..AdvancedRadixSortConfig::default() };
+            let mut s = AdvancedRadixSort::<u32>::with_memory_pool(cfg, pool);
+            for (round, inp) in ins.iter().enumerate() {
+                let v: Vec<u32> = inp.iter().map(|&x| x as u32).collect();
+                let mut d = v.clone();
+                check_ok!(round, s.sort(&mut d));
+                check_sorted!(round, v, d);
+            }
+        }
+        5 | 9 => {
+            let cc = CoCase { keys: Keys::Seq(vec![]), path: CoPath::Funnel, k: 2, small_thr: 2, simd: true };
+            let cfg = co_config(&cc, 0, 8);
+            let mut s = CacheObliviousSort::with_config(cfg.clone());
+            for (round, inp) in ins.iter().enumerate() {
+                if kind == 9 {
+                    // signed items: the upper half of the key range becomes negative
+                    let v: Vec<i32> = inp.iter().map(|&x| (x as u32) as i32).collect();
+                    let out = check_ok!(round, s.execute(&cfg, v.clone()));
+                    check_sorted!(round, v, out);
+                } else {
+                    let mut d = inp.clone();
+                    check_ok!(round, s.sort(&mut d));
+                    check_sorted!(round, inp, d);
+                }
+            }
+        }
+        6 | 10 => {
+            let cfg = MultiWayMergeConfig { use_tournament_tree: true, ..MultiWayMergeConfig::default() };
+            let mut m = MultiWayMerge::with_config(cfg.clone());
+            for (round, inp) in ins.iter().enumerate() {
+                let ks: &[usize] = if kind == 10 { &[3] } else { &[9, 2] };
+                for &k in ks {
+                    let runs = round_robin(inp, k);
+                    let mut exp: Vec<i32> = runs.iter().flatten().copied().collect();
+                    exp.sort();
+                    let out: Vec<i32> = if kind == 10 {
+                        check_ok!(round, m.execute(&cfg, runs.clone()))
+                    } else {
+                        check_ok!(round, m.merge(runs.iter().map(|r| VectorSource::new(r.clone())).collect::<Vec<_>>()))
+                    };
+                    if out != exp {
+                        return enumr::fail("merge_union", format!("kind{kind}/{}", if round == 0 { "first-use" } else { "later-use" }), format!("{}: use #{round}, {k} runs: got {}, expected {}", REUSE_KINDS[kind], brief_vec(&out), brief_vec(&exp)));
+                    }
+                }
+            }
+        }
+        7 => {
+            let mut so = SetOperations::new();
+            for (round, inp) in ins.iter().enumerate() {
+                let mut base: Vec<u64> = inp.iter().map(|x| x % 1000).collect();
+                base.sort();
+                base.dedup();
+                let ways: Vec<Vec<u64>> = (0..3u64).map(|w| base.iter().map(|x| x + w).collect::<Vec<u64>>()).map(|mut v| { v.sort(); v.dedup(); v }).collect();
+                let its = || ways.iter().map(|w| w.clone().into_iter()).collect::<Vec<_>>();
+                let exp_i: Vec<u64> = ways[0].iter().copied().filter(|x| ways[1].contains(x) && ways[2].contains(x)).collect();
+                let mut exp_u: Vec<u64> = ways.iter().flatten().copied().collect();
+                exp_u.sort();
+                exp_u.dedup();
+                for step in 0..3 {
+                    let (got, exp, what) = if step == 1 { (check_ok!(round, so.union(its())), &exp_u, "union") } else { (check_ok!(round, so.intersection(its())), &exp_i, "intersection") };
+                    if &got != exp {
+                        return enumr::fail("set_op_result", format!("kind{kind}/{}", if round == 0 && step == 0 { "first-use" } else { "later-use" }), format!("{}: input #{round}, call {step} ({what}) on ways {:?}: got {}, expected {}", REUSE_KINDS[kind], ways.iter().map(|w| brief_vec(w)).collect::<Vec<_>>(), brief_vec(&got), brief_vec(exp)));
+                    }
+                }
+            }
+        }
+        12 => {
+            for (round, inp) in ins.iter().enumerate() {
+                let mut d = inp.clone();
+                check_ok!(round, d.external_sort());
+                check_sorted!(round, inp, d);
+            }
+        }
+        8 => {
+            let cfg = RadixSortConfig { use_parallel: true, parallel_threshold: 8, radix_bits: 11, use_counting_sort_threshold: 0, use_simd: true };
+            let s = RadixSort::new();
+            for (round, inp) in ins.iter().enumerate() {
+                let v: Vec<u32> = inp.iter().map(|&x| x as u32).collect();
+                let out = check_ok!(round, s.execute(&cfg, v.clone()));
+                check_sorted!(round, v, out);
+            }
+        }
+        _ => return Outcome::skip("unknown kind"),
+    }
+    if ins.iter().all(|i| i.len() < 2) {
+        Outcome::trivial(&label)
+    } else {
+        Outcome::pass(&label)
+    }
+}
+
+/// Run, outside the explorer, the witnesses of the two former process-killing case families (harmless since ae3b25e / e193009):
 ///   c11 --crash-witness funnel          small_threshold 1, funnel width 2, 4 items      -> stack overflow (SIGSEGV/abort)
 ///   c11 --crash-witness funnel-default  CacheObliviousConfig::default(), 2^21 u64 items -> stack overflow
 ///   c11 --crash-witness counting        RadixSort::new().sort_u32(&mut [u32::MAX])      -> 32 GiB of counters
@@ -1803,8 +2711,8 @@ fn main() {
         std::env::set_var("RAYON_NUM_THREADS", "4");
     }
     zverif::main_with("C11", |reg, _tier| {
-        add(reg, "RadixSort::sort_u32", &format!("{INT_SPACE} x radix_bits {{1,4,8,11,16}} x parallel {{off, threshold 1,4,16}} x counting threshold {{0,4,256}} (keys <= 2^16 when counting is enabled, plus 3 cases with 2^24)"), radix_gen(false), run_radix_u32);
-        add(reg, "RadixSort::sort_u64", &format!("{INT_SPACE} x radix_bits {{1,4,8,11,16}} x parallel {{off, threshold 1,4,16}}"), radix_gen(true), run_radix_u64);
+        add(reg, "RadixSort::sort_u32", &format!("{INT_SPACE} x radix_bits {{1,4,8,11,16}} x parallel {{off, threshold 1,4,16}} x counting threshold {{0,4,256}} (keys <= 2^16 when counting is enabled, plus 3 cases with 2^24); radix_bits {{3,13}} x parallel {{off,4}}; G: keys 1023/1024/1025/4000/65537/2^20 (the counting path is refused above 4*max(len,256)) x counting threshold {{1,2,4,256,1000}} x parallel {{off,16}}, and n in {{256,257,342,343,999,1000,1001}} shapes with counting threshold 1000"), radix_gen(false), run_radix_u32);
+        add(reg, "RadixSort::sort_u64", &format!("{INT_SPACE} x radix_bits {{1,4,8,11,16}} x parallel {{off, threshold 1,4,16}}; radix_bits {{3,13}} x parallel {{off,4}}"), radix_gen(true), run_radix_u64);
         add(reg, "RadixSort::sort_bytes", &format!("{STR_SPACE_DENSE}{STR_SPACE}"), |t, f| str_inputs_dense(t, f), run_sort_bytes);
 
         add(reg, "KeyValueRadixSort::sort_by_key", &format!("key types u32 and u64 x {INT_SPACE}; value = original index; default config (the type offers no other); thorough adds n=20001 (parallel split)"), kv_gen, run_kv_case);
@@ -1816,47 +2724,61 @@ fn main() {
             add(
                 reg,
                 &format!("AdvancedRadixSort[{}]", strat.label()),
-                &format!("item types u32, u64 ({INT_SPACE}) and RadixString ({STR_SPACE}) x config grid: LsdRadix: radix_bits {{1,4,8,11,16}} x parallel {{off,1,4,16}} x simd on/off (+ num_threads 3, secure pool); MsdRadix: insertion threshold {{0,2,100}}; auto: insertion threshold {{0,2,100}} x parallel {{off,4}} x simd; others: secure pool on/off"),
+                &format!("item types u32, u64 ({INT_SPACE}) and RadixString ({STR_SPACE}) x config grid: LsdRadix: radix_bits {{1,4,8,11,16}} x parallel {{off,1,4,16}} x simd on/off (+ num_threads 1, 3, 7, 64, secure pool); MsdRadix: insertion threshold {{0,2,100}}; auto: insertion threshold {{0,2,100}} x parallel {{off,4}} x simd; others: secure pool on/off"),
                 adv_gen(strat),
                 move |c: &AdvCase| run_adv(strat, c),
             );
         }
 
-        for path in [CoPath::L1, CoPath::L2, CoPath::L3, CoPath::Funnel, CoPath::DirectFunnel, CoPath::HybridAware, CoPath::HybridFunnel, CoPath::Default] {
+        for path in [CoPath::L1, CoPath::L2, CoPath::L3, CoPath::Funnel, CoPath::DirectFunnel, CoPath::HybridAware, CoPath::HybridFunnel, CoPath::Default, CoPath::FunnelNoAvx2, CoPath::L1NoAvx2] {
             add(
                 reg,
                 &format!("CacheObliviousSort[{:?}]", path),
-                &format!("{INT_SPACE} (u64 items; u128 for L2/L3) x config: funnel width k in {{2,3,4,9,16,64}} x small_threshold {{1,2,4,16,1024}} for the funnel paths, simd on/off for L1; Default adds n in {{4095,4096,4097,8193}}; cases whose funnel recursion reaches width 1 above small_threshold are left out (crash)"),
+                &format!("{INT_SPACE} (u64 items; u128 for L2/L3) x config: funnel width k in {{2,3,4,9,16,64}} x small_threshold {{1,2,4,16,1024}} for the funnel paths, simd on/off for L1; FunnelNoAvx2 / L1NoAvx2: cpu_features.has_avx2 = has_sse42 = false in the config, funnel k {{2,9}} x small_threshold {{1,16}}; Default adds n in {{4095,4096,4097,8193}} (thorough: + 2^21 scrambled); cases whose funnel recursion hands a width-1 node more than small_threshold items (class funnel-width1-node) are included since the width clamp of zipora e193009"),
                 co_gen(path),
                 run_co,
             );
         }
         add(reg, "ReplaceSelectSort", &format!("ReplaceSelectSort::sort: item types u64,u32 x {INT_SPACE} (n <= 257) x memory budget {{<1,1,2,3}} items x merge_ways {{2,3,16}} (+ secure pool for one point); <Vec<u64> as ExternalSort>::external_sort_with_config: same inputs x memory budget, merge_ways 2; temp dir /dev/shm/zverif/c11-ext-<pid> created and removed per case"), ext_gen, run_ext);
 
-        add(reg, "MultiWayMerge[heap]", MERGE_SPACE, merge_gen(&[0], 4, 4), run_multiway);
+        const WIDE_SPACE: &str = "G: k in {6,7,8,9,16,17,33} runs fed round-robin from (i/3) for i < n, n in {k-1, 2k+1, 5k}, with and without every 4th run empty, and k blocks of 5 in ascending / descending run order";
+        add(reg, "MultiWayMerge[heap]", &format!("{MERGE_SPACE}; {WIDE_SPACE}"), |t, f| merge_gen(&[0], 4, 4)(t, f) && explicit_runs_gen(wide_merge_runs, &[0])(t, f), run_multiway);
         add(reg, "MultiWayMerge[hierarchical]", &format!("{MERGE_SPACE}; max_merge_ways = 2"), merge_gen(&[2, 3], 4, 4), run_multiway);
-        add(reg, "MultiWayMerge[tournament]", &format!("use_tournament_tree = true: {MERGE_SPACE} (<= 8 sources: heap path) ∪ the same tuples + 5 fixed runs [],[0],[1,1],[2],[0,1,2] (9 sources: tournament path); thorough adds all 4^9 tuples of nine runs of length <= 1"), |t, f| merge_gen(&[1, 5], 4, 4)(t, f) && nine_gen(t, f), run_multiway);
+        add(reg, "MultiWayMerge[tournament]", &format!("use_tournament_tree = true: {MERGE_SPACE} (<= 8 sources: heap path) ∪ the same tuples + 5 fixed runs [],[0],[1,1],[2],[0,1,2] (9 sources: tournament path); thorough adds all 4^9 tuples of nine runs of length <= 1"), |t, f| merge_gen(&[1, 5], 4, 4)(t, f) && nine_gen(t, f) && explicit_runs_gen(wide_merge_runs, &[1])(t, f), run_multiway);
         add(reg, "MergeOperations::{merge_two,merge_in_place}", "all pairs of sorted runs of length <= 4 (quick) / <= 6 (thorough) over {0,1,2}; merge_in_place on a ++ b with mid = |a|", pair_gen(&[0, 1]), run_merge_ops);
-        add(reg, "EnhancedLoserTree", &format!("0..4 ways: {MERGE_SPACE} x (stable_sort, cache_optimized) in {{(1,1),(0,0),(1,0),(0,1)}} via merge_to_vec, and (1,1),(0,0) via initialize()+peek()/next(); 5 ways: all 5-tuples of runs of length <= 1 (quick) / <= 2 (thorough); secure pool: <= 2 ways"), loser_gen, run_loser_tree);
+        add(reg, "EnhancedLoserTree", &format!("0..4 ways: {MERGE_SPACE} x (stable_sort, cache_optimized) in {{(1,1),(0,0),(1,0),(0,1)}} via merge_to_vec, and (1,1),(0,0) via initialize()+peek()/next(); 5 ways: all 5-tuples of runs of length <= 1 (quick) / <= 2 (thorough); secure pool: <= 2 ways; {WIDE_SPACE} x {{(1,1) merge_to_vec, (1,1) iterator, (0,0)}}; iterator mode also checks num_ways() and is_empty() before every pop"), loser_gen, run_loser_tree);
         add(reg, "SimdComparator::merge_sorted_i32", "all pairs of sorted runs of length <= 3 (quick) / <= 4 (thorough) over {MIN,-1,0,2,MAX}; G = lengths {0,1,7,8,9,15,16,17,33,100}^2 x {interleaved, left smaller, right smaller, all equal}; x (min_vector_size, use_avx2) in {(1,on),(8,on),(1,off)}", simd_gen, run_simd);
-        add(reg, "SimdOperations::merge_multiple_sorted", MERGE_SPACE, merge_gen(&[0], 4, 4), run_simd_multi);
+        add(reg, "SimdOperations::merge_multiple_sorted", &format!("{MERGE_SPACE}; G (the default SimdComparator takes its AVX2 path from 16 items per pair on): k in {{2,3,5,8,9}} arrays of 8, 9, 17 (and len + way) items, interleaved / ascending blocks / descending blocks; {WIDE_SPACE}"), |t, f| merge_gen(&[0], 4, 4)(t, f) && explicit_runs_gen(long_multi_runs, &[0])(t, f) && explicit_runs_gen(wide_merge_runs, &[0])(t, f), run_simd_multi);
+        add(reg, "EnhancedLoserTree[with_comparator]", &format!("EnhancedLoserTree::with_comparator(descending order) on the runs reversed: all tuples of <= 3 (quick) / <= 4 (thorough) sorted runs of length <= 3 over {{0,1,2}} x (stable+cache-optimized via merge_to_vec, the same via initialize()+peek()/next() with num_ways()/is_empty() observed, neither); {WIDE_SPACE}"), loser_cmp_gen, run_loser_tree_cmp);
 
         for &(fun, name) in ALL_SETFNS {
             add(
                 reg,
                 &format!("set_ops::{name}"),
-                "all pairs of sorted multisets of length <= 4 over {0,1,2} (quick) / <= 5 over {0,1,2,3} (thorough); fast variants x ratio threshold {0,1,2,32}; 1small/fast variants additionally against one 100-element sequence",
+                "all pairs of sorted multisets of length <= 4 over {0,1,2} (quick) / <= 5 over {0,1,2,3} (thorough); fast variants x ratio threshold {0,1,2,32}; 1small/fast variants additionally against one 100-element sequence; G2 (every two-sequence function): sequences of length <= 3 over {0,7,14} / {0,7,255} / {5,6,250} against three 100-element sequences (triples 0..33, odd values 1..199, runs 1^40 5^40 250^20) in both argument orders; set_unique: one sorted multiset of length <= 9",
                 setfn_gen(fun),
                 move |c: &PairCase| run_setfn(fun, c),
             );
         }
+        const MANY_SPACE: &str = "G: k in {31,32,33} (thorough: + 64,65) ways: all [0,1,2]; one way (first / last / 31 / 32) lacking the 1; all [0,1,1,2] but one with a single 1; one empty way among [1]s; way i = [i mod 3]";
+        for &(fun, name) in TAGGED_SETFNS {
+            add(
+                reg,
+                &format!("set_ops::{name}[tagged]"),
+                "the space of the untagged subject, every element carrying (sequence, index) and the comparator looking at the key only: the output must be the documented selection of INPUT ELEMENTS (intersection: from the first sequence; intersection2: from the second; union: all; difference: from the first), none emitted twice",
+                setfn_gen(fun),
+                move |c: &PairCase| run_setfn_tagged(fun, c),
+            );
+        }
+        add(reg, "ReplaceSelectSort[reuse,comparator,strings]", "(a) one sort: ReplaceSelectSort::with_comparator(ascending / descending) for u64 items and new / with_comparator for String items (variable-size run records) x the integer S u G (n <= 257; quick: sequences <= 5) x memory {1,3} items; (b) ONE sorter object sorting two inputs after each other: all pairs of sequences of length <= 3 over {0,1,2} x memory {1,2} items x cleanup_temp_files on/off x {Ord, with_comparator(ascending)}, and all triples of sequences of length <= 2 (thorough: <= 3); (c) long after short and short after long (100/3, 3/100, 257/16 items), u64 and String", ext_seq_gen, run_ext_seq);
+        add(reg, "reused objects / Algorithm::execute", &format!("kinds: {}; inputs: all ordered pairs (execute: single inputs) of [], [5], [2,0,1], [2^40,3,2^33,3], reversed 17, scrambled 33, scrambled-few 100, organ pipe 300, wide reversed 300, scrambled 1000, plus one long-short-long triple; every result of every use is judged", REUSE_KINDS.iter().enumerate().map(|(i, k)| format!("({i}) {k}")).collect::<Vec<_>>().join("; ")), reuse_gen, run_reuse);
         for (op, name) in [
             (KOp::Union, "SetOperations::union"),
             (KOp::Frequencies, "SetOperations::count_frequencies"),
             (KOp::FilterMerge, "SetOperations::filter_merge"),
         ] {
-            add(reg, name, &format!("{MERGE_SPACE} (quick: <= 3 runs)"), merge_gen(&[0], 3, 4), move |c: &MergeCase| run_kop(op, c));
+            add(reg, name, &format!("{MERGE_SPACE} (quick: <= 3 runs); {MANY_SPACE}"), |t, f| merge_gen(&[0], 3, 4)(t, f) && many_ways_gen(&[0])(t, f), move |c: &MergeCase| run_kop(op, c));
         }
-        add(reg, "SetOperations::intersection", &format!("{MERGE_SPACE} (quick: <= 3 runs) x variant {{bit-mask path (default), use_bit_mask_optimization=false, bit_mask_threshold=1}}; all variants are compared with the same k-way min-multiplicity reference, i.e. with each other"), merge_gen(&[0, 1, 2], 3, 4), |c: &MergeCase| run_kop(KOp::Inter, c));
+        add(reg, "SetOperations::intersection", &format!("{MERGE_SPACE} (quick: <= 3 runs) x variant {{bit-mask path (default), use_bit_mask_optimization=false, bit_mask_threshold=1}}; all variants are compared with the same k-way min-multiplicity reference, i.e. with each other; {MANY_SPACE} x {{default (bit mask up to 32 ways, general above), use_bit_mask_optimization=false, bit_mask_threshold=64}}"), |t, f| merge_gen(&[0, 1, 2], 3, 4)(t, f) && many_ways_gen(&[0, 1, 3])(t, f), |c: &MergeCase| run_kop(KOp::Inter, c));
     });
 }
